@@ -42,6 +42,9 @@ type readCase struct {
 	Body  []chunk   `json:"body"`
 	Head  *wireResp `json:"head,omitempty"`
 	Fault string    `json:"fault"`
+	// Drain: how the consumer takes the bytes out of the reader (drain.go); none: io.ReadAll.
+	// The body records the Read results it delivered to the client's reader under that consumer.
+	Drain *drainSpec `json:"drain,omitempty"`
 }
 
 var errInjected = fmt.Errorf("injected transport failure")
@@ -169,7 +172,12 @@ func runRead(out *hx.Out, c readCase, origin string) {
 		var d ociregistry.Descriptor
 		p2, pv2 := hx.Recover(func() {
 			d = rd.Descriptor()
-			data, rerr = io.ReadAll(rd)
+			var ds drainSpec
+			if c.Drain != nil {
+				ds = *c.Drain
+				ds.Again = false // the script ends with the stream
+			}
+			data, rerr = drainReader(rd, ds)
 			rd.Close()
 		})
 		if p2 {
@@ -226,6 +234,9 @@ func runRead(out *hx.Out, c readCase, origin string) {
 	if out.Add(hx.Case{Coq: coq, Desc: desc, Tags: map[string]any{"class": "read-" + c.Fault, "kind": c.Kind}}) {
 		out.Count(fmt.Sprintf("read:kind:%d", c.Kind))
 		out.Count("read:fault:" + c.Fault)
+		if c.Drain != nil && obs != "ROpenErr" && obs != "ROpenPanic" {
+			out.Count("read:drain:" + drainModeNames[c.Drain.Mode%nDrainModes])
+		}
 		switch {
 		case obs == "ROpenErr":
 			out.Count("read:outcome:open-error")
@@ -435,6 +446,8 @@ func genReads(out *hx.Out, rnd *rand.Rand, scale int) {
 				c.Body = partition(rnd, content[o0:end])
 			}
 			f.apply(&c, content)
+			ds := randDrainSpec(drainSeeds)
+			c.Drain = &ds
 			runRead(out, c, "random")
 		}
 	}
